@@ -33,8 +33,9 @@ import (
 // operation sequences
 
 type wop struct {
-	Kind byte // 0 put, 1 delete, 2 fail (ledger scripts only)
+	Kind byte // 0 put, 1 delete, 2 fail (ledger scripts only), 3 read K into register Reg, 4 put register Reg under K
 	K, V []byte
+	Reg  byte
 }
 
 func (o wop) String() string {
@@ -43,6 +44,10 @@ func (o wop) String() string {
 		return fmt.Sprintf("put(%x,%x)", o.K, o.V)
 	case 1:
 		return fmt.Sprintf("del(%x)", o.K)
+	case 3:
+		return fmt.Sprintf("r%d=get(%x)", o.Reg, o.K)
+	case 4:
+		return fmt.Sprintf("put(%x,r%d)  // r%d holds %x", o.K, o.Reg, o.Reg, o.V)
 	}
 	return "fail"
 }
@@ -57,6 +62,11 @@ type txn struct {
 type net struct {
 	keys  [][]byte
 	final map[string][]byte // empty = deleted
+	// forced[k] = values k holds right before its final write in every non-minimal sequence. They make
+	// records travel between keys (archive-then-update: final[H] = previous value of K; swap: final[A] =
+	// previous value of B and vice versa), which lets the generator express a write as "put the slice
+	// that Get returned for another key" — the way native contracts move records around.
+	forced map[string][][]byte
 }
 
 var alphabet = []byte{0x00, 'a', 'b', 0xff}
@@ -91,6 +101,29 @@ func genNet(rng *rand.Rand, prefix []byte) *net {
 			n.final[string(k)] = genVal(rng)
 		}
 	}
+	n.forced = map[string][][]byte{}
+	sameLen := func(v []byte) []byte { // fixed-size record, sometimes a shorter one
+		w := make([]byte, len(v))
+		if rng.Intn(4) == 0 {
+			w = make([]byte, 1+rng.Intn(len(v)))
+		}
+		rng.Read(w)
+		return w
+	}
+	perm := rng.Perm(len(n.keys))
+	if len(perm) >= 2 && rng.Intn(10) < 6 { // archive-then-update: H keeps what K held before its last write
+		k, h := string(n.keys[perm[0]]), string(n.keys[perm[1]])
+		o := genVal(rng)
+		n.final[k], n.final[h] = sameLen(o), o
+		n.forced[k] = [][]byte{o}
+	}
+	if len(perm) >= 4 && rng.Intn(10) < 4 { // swap of two records
+		a, b := string(n.keys[perm[2]]), string(n.keys[perm[3]])
+		a0 := genVal(rng)
+		b0 := sameLen(a0)
+		n.final[a], n.final[b] = b0, a0
+		n.forced[a], n.forced[b] = [][]byte{a0}, [][]byte{b0}
+	}
 	return n
 }
 
@@ -115,32 +148,38 @@ func genTxs(rng *rand.Rand, n *net, style int, prefix []byte, allowDirect bool) 
 		for j := 0; j < inter; j++ {
 			switch rng.Intn(5) {
 			case 0:
-				ch = append(ch, wop{1, k, nil})
+				ch = append(ch, wop{Kind: 1, K: k, V: nil})
 				stats["intermediate_delete"]++
 			case 1:
-				ch = append(ch, wop{0, k, append([]byte{}, fin...)}) // the final value written early (empty = delete as put)
+				ch = append(ch, wop{Kind: 0, K: k, V: append([]byte{}, fin...)}) // the final value written early (empty = delete as put)
 				stats["intermediate_same_value"]++
 			case 2:
-				ch = append(ch, wop{0, k, nil})
+				ch = append(ch, wop{Kind: 0, K: k, V: nil})
 				stats["intermediate_put_empty"]++
 			default:
-				ch = append(ch, wop{0, k, genVal(rng)})
+				ch = append(ch, wop{Kind: 0, K: k, V: genVal(rng)})
 				stats["intermediate_other_value"]++
+			}
+		}
+		if style != 0 {
+			for _, fv := range n.forced[string(k)] {
+				ch = append(ch, wop{Kind: 0, K: k, V: append([]byte{}, fv...)})
+				stats["forced_previous_value"]++
 			}
 		}
 		if len(fin) == 0 {
 			if rng.Intn(3) == 0 {
-				ch = append(ch, wop{0, k, nil}) // deletion expressed as an empty put
+				ch = append(ch, wop{Kind: 0, K: k, V: nil}) // deletion expressed as an empty put
 				stats["final_delete_as_empty_put"]++
 			} else {
-				ch = append(ch, wop{1, k, nil})
+				ch = append(ch, wop{Kind: 1, K: k, V: nil})
 				stats["final_delete"]++
 			}
 			if len(ch) >= 2 && ch[len(ch)-2].Kind == 0 && len(ch[len(ch)-2].V) > 0 {
 				stats["put_then_delete"]++
 			}
 		} else {
-			ch = append(ch, wop{0, k, append([]byte{}, fin...)})
+			ch = append(ch, wop{Kind: 0, K: k, V: append([]byte{}, fin...)})
 			if len(ch) >= 2 && (ch[len(ch)-2].Kind == 1 || len(ch[len(ch)-2].V) == 0) {
 				stats["delete_then_put"]++
 			}
@@ -181,9 +220,9 @@ func genTxs(rng *rand.Rand, n *net, style int, prefix []byte, allowDirect bool) 
 			for j := 0; j < 1+rng.Intn(3); j++ {
 				k := genKey(rng, prefix)
 				if rng.Intn(2) == 0 {
-					ops = append(ops, wop{0, k, genVal(rng)})
+					ops = append(ops, wop{Kind: 0, K: k, V: genVal(rng)})
 				} else {
-					ops = append(ops, wop{1, k, nil})
+					ops = append(ops, wop{Kind: 1, K: k, V: nil})
 				}
 			}
 			txs = append(txs, txn{Ops: ops, Fail: true})
@@ -191,8 +230,95 @@ func genTxs(rng *rand.Rand, n *net, style int, prefix []byte, allowDirect bool) 
 		}
 		txs = append(txs, t)
 	}
+	forwardize(rng, txs, stats)
 	stats["txs"] += len(txs)
 	return txs, stats
+}
+
+// forwardize rewrites some puts of a committed transaction into value-forwarding form: if, at some
+// earlier point q of the SAME transaction, another key X visibly holds exactly the bytes the put
+// writes, a "r = Get(X)" is inserted at q and the put becomes "Put(K, r)" with the slice returned by
+// Get, not a copy. By construction r was read while X held the wanted bytes, so the net write set of
+// the sequence is unchanged, whatever happens to X between the read and the use.
+func forwardize(rng *rand.Rand, txs []txn, stats map[string]int) {
+	committed := map[string][]byte{}
+	for ti := range txs {
+		t := &txs[ti]
+		if t.Fail {
+			continue
+		}
+		local := map[string][]byte{}
+		vis := func() map[string][]byte {
+			m := map[string][]byte{}
+			for k, v := range committed {
+				m[k] = v
+			}
+			for k, v := range local {
+				m[k] = v
+			}
+			return m
+		}
+		states := make([]map[string][]byte, len(t.Ops)) // visible values right before op q
+		for q, o := range t.Ops {
+			states[q] = vis()
+			if o.Kind == 0 {
+				local[string(o.K)] = o.V
+			} else if o.Kind == 1 {
+				local[string(o.K)] = nil
+			}
+		}
+		inserts := make([][]wop, len(t.Ops))
+		ops := append([]wop{}, t.Ops...)
+		reg := byte(0)
+		for p, o := range ops {
+			if o.Kind != 0 || len(o.V) == 0 || rng.Intn(10) >= 8 || reg == 255 {
+				continue
+			}
+			type cand struct {
+				q int
+				x string
+			}
+			var cs []cand
+			for q := 0; q <= p; q++ {
+				var xs []string
+				for x, v := range states[q] {
+					if x != string(o.K) && bytes.Equal(v, o.V) {
+						xs = append(xs, x)
+					}
+				}
+				sort.Strings(xs)
+				for _, x := range xs {
+					cs = append(cs, cand{q, x})
+				}
+			}
+			if len(cs) == 0 {
+				continue
+			}
+			c := cs[rng.Intn(len(cs))]
+			inserts[c.q] = append(inserts[c.q], wop{Kind: 3, K: []byte(c.x), Reg: reg})
+			ops[p] = wop{Kind: 4, K: o.K, V: o.V, Reg: reg}
+			reg++
+			stats["forwarded_puts"]++
+			for q := c.q; q < p; q++ {
+				if (ops[q].Kind == 0 || ops[q].Kind == 1 || ops[q].Kind == 4) && string(ops[q].K) == c.x {
+					stats["forwarded_after_source_was_overwritten"]++
+					if (ops[q].Kind == 0 || ops[q].Kind == 4) && len(ops[q].V) != 0 && len(ops[q].V) <= len(o.V) {
+						stats["forwarded_after_source_overwritten_by_value_not_longer"]++
+					}
+					break
+				}
+			}
+		}
+		var out []wop
+		for q := range ops {
+			out = append(out, inserts[q]...)
+			out = append(out, ops[q])
+		}
+		t.Ops = out
+		for k, v := range local {
+			committed[k] = v
+		}
+	}
 }
 
 type kv struct {
@@ -251,23 +377,34 @@ func txsJSON(txs []txn) []map[string]interface{} {
 func applyOverlay(ov *overlaydb.OverlayDB, txs []txn) {
 	cache := storage.NewCacheDB(ov)
 	for _, t := range txs {
+		regs := map[byte][]byte{} // slices exactly as returned by Get (never copied)
 		if t.Direct && !t.Fail {
 			for _, o := range t.Ops {
 				full := append([]byte{byte(scommon.ST_STORAGE)}, o.K...)
-				if o.Kind == 0 {
+				switch o.Kind {
+				case 0:
 					ov.Put(full, o.V)
-				} else {
+				case 1:
 					ov.Delete(full)
+				case 3:
+					regs[o.Reg], _ = ov.Get(full)
+				case 4:
+					ov.Put(full, regs[o.Reg])
 				}
 			}
 			continue
 		}
 		cache.Reset()
 		for _, o := range t.Ops {
-			if o.Kind == 0 {
+			switch o.Kind {
+			case 0:
 				cache.Put(o.K, o.V)
-			} else {
+			case 1:
 				cache.Delete(o.K)
+			case 3:
+				regs[o.Reg], _ = cache.Get(o.K)
+			case 4:
+				cache.Put(o.K, regs[o.Reg])
 			}
 		}
 		if !t.Fail {
@@ -344,7 +481,7 @@ func partA(r *kit.Run) {
 		// sensitivity (vacuity guard, not a property clause): changing one final value changes the digest
 		if i%10 == 0 {
 			ovs[2].Reset()
-			nt2 := &net{keys: nt.keys, final: map[string][]byte{}}
+			nt2 := &net{keys: nt.keys, final: map[string][]byte{}, forced: nt.forced}
 			for k, v := range nt.final {
 				nt2.final[k] = v
 			}
@@ -396,7 +533,11 @@ func encodeScript(t txn) []byte {
 	for _, o := range t.Ops {
 		sink.WriteByte(o.Kind)
 		sink.WriteVarBytes(o.K)
-		sink.WriteVarBytes(o.V)
+		if o.Kind == 3 || o.Kind == 4 {
+			sink.WriteVarBytes([]byte{o.Reg})
+		} else {
+			sink.WriteVarBytes(o.V)
+		}
 	}
 	if t.Fail {
 		sink.WriteByte(2)
@@ -408,6 +549,7 @@ func encodeScript(t txn) []byte {
 
 func runScriptContract(s *native.NativeService) ([]byte, error) {
 	src := common.NewZeroCopySource(s.GetInput())
+	regs := map[byte][]byte{} // slices exactly as returned by CacheDB.Get (never copied)
 	for src.Len() > 0 {
 		op, eof := src.NextByte()
 		if eof {
@@ -426,6 +568,20 @@ func runScriptContract(s *native.NativeService) ([]byte, error) {
 			s.GetCacheDB().Put(k, v)
 		case 1:
 			s.GetCacheDB().Delete(k)
+		case 3:
+			if len(v) != 1 {
+				return nil, errors.New("script: bad register")
+			}
+			val, err := s.GetCacheDB().Get(k)
+			if err != nil {
+				return nil, err
+			}
+			regs[v[0]] = val
+		case 4:
+			if len(v) != 1 {
+				return nil, errors.New("script: bad register")
+			}
+			s.GetCacheDB().Put(k, regs[v[0]])
 		default:
 			return nil, errors.New("script: scripted abort")
 		}
